@@ -67,6 +67,7 @@ impl<'buf, IO: Io> Connection<'_, 'buf, IO> {
         if !self.live {
             return Err(Error::Disconnected);
         }
+        self.resume_closing().await?;
         let mut advanced = false;
         loop {
             if self.session.packet_reader.packet_available() {
@@ -438,7 +439,18 @@ impl<'buf, IO: Io> Connection<'_, 'buf, IO> {
         Ok(())
     }
 
+    /// A cancelled `disconnect_with()` has begun a `DISCONNECT`: complete it before anything else
+    /// is written, after which the connection is closed.
+    async fn resume_closing(&mut self) -> Result<(), Error<IO::Error>> {
+        if self.session.runtime.closing.is_some() {
+            self.finish_closing().await?;
+            return Err(Error::Disconnected);
+        }
+        Ok(())
+    }
+
     pub(super) async fn flush_outbound(&mut self) -> Result<(), Error<IO::Error>> {
+        self.resume_closing().await?;
         loop {
             self.maybe_queue_pingreq(Instant::now())?;
             let Some(step) = self.session.data.outbound.next_step() else {
